@@ -48,28 +48,30 @@ def creation_signs(repo):
     return out
 
 
+QUADRATIC = frozenset('SQ')      # square and sum-of-squares: c*f(x) = f(sqrt(c)*x), every other atom is scaled linearly
+
+
 def mul_degrees(repo):
-    """letter -> 1 or 2 (multiplier exponent in evaluators) from Convex.__mul__'s two classes."""
+    """letter -> exponent of the stored multiplier in the value of the atom: 2 for the quadratic
+    atoms (their multiplier is kept as sqrt(|c|)), 1 otherwise.  This is a fact about the atoms; that
+    Convex.__mul__ implements it is decided by R11, which interprets __mul__ for every letter."""
     fi = repo.func('lp.Convex.__mul__')
-    deg = {}
-    for n in walk_no_nested(fi.node):
-        if isinstance(n, ast.If):
-            cur = n
-            while True:
-                t = cur.test
-                if isinstance(t, ast.Compare) and ntext(t.left) == 'self.xtype' and \
-                        isinstance(t.ops[0], ast.In) and const_str(t.comparators[0]):
-                    body = ' '.join(ntext(s) for s in cur.body)
-                    d = 2 if '** 0.5' in body else 1
-                    for ch in const_str(t.comparators[0]):
-                        deg[ch] = d
-                if len(cur.orelse) == 1 and isinstance(cur.orelse[0], ast.If):
-                    cur = cur.orelse[0]
-                else:
-                    break
-    if len(deg) < 10:
-        raise AnalysisError('Convex.__mul__: homogeneity classes not recognised')
-    return deg
+    letters = set()
+    for n in ast.walk(fi.node):
+        if isinstance(n, ast.Constant) and isinstance(n.value, str) and n.value.isalpha() and n.value.isupper():
+            letters |= set(n.value)
+    for mod in ('lp', 'math'):
+        for f in list(repo.module(mod).functions.values()) + [m for c in repo.module(mod).classes.values()
+                                                              for m in c.methods.values()]:
+            for n in ast.walk(f.node):
+                if isinstance(n, ast.Call) and isinstance(n.func, ast.Name) and n.func.id in ('Convex', 'PerspConvex'):
+                    for a in list(n.args) + [k.value for k in n.keywords]:
+                        if isinstance(a, ast.Constant) and isinstance(a.value, str) and len(a.value) == 1 \
+                                and a.value.isupper():
+                            letters.add(a.value)
+    if len(letters) < 10:
+        raise AnalysisError('atom letters not found (only %d)' % len(letters))
+    return {ch: (2 if ch in QUADRATIC else 1) for ch in letters}
 
 
 def xtype_chain(fi):
